@@ -4,7 +4,7 @@ the real `IRGenerator`, plus direct oracles on the real objects.
   correspondence  spec texts (generated models of harness/specgen.py, their one-violation injections of
                   harness/inject.py, hand-written seeds for every modelled error site) are parsed with the REAL parser;
                   the partial ASTs -- what `IRGenerator` is constructed with -- are reduced to the model's input (docs,
-                  examples dropped; route attributes kept with their values) and sent to `comp.compile`; the same texts go through the real `specs_to_ir`; the Api is dumped
+                  examples dropped; route attributes kept with their values, and the external calls their value tests may make answered in tables, `attr_tables`) and sent to `comp.compile`; the same texts go through the real `specs_to_ir`; the Api is dumped
                   to the model's output format (types with parent / members / catch-all, aliases, routes with their three
                   types and deprecation, enumerated subtypes; every type expression in full, arguments included).
                   ok-vs-ok: the two dumps must be equal.  error-vs-error: the kind of the real `InvalidSpec` (message
@@ -93,6 +93,65 @@ def _aval(v):
     if isinstance(v, A.AstTagRef):
         return ['T', v.tag]
     raise Unmodelled('attr-value:' + type(v).__name__)
+
+
+def attr_tables(jfiles):
+    """-> (ext, cext): the external calls `IrCheck.check` may make for the values of the route attributes of `jfiles`,
+    answered with the reference libraries (format of `decl.ircheck.*`): `float(n)`, `float(n) == n` for every integer
+    value; the whole-pattern match and `strptime` for every string value against every string literal that is an
+    argument of a type reference (the patterns and the formats are among them)"""
+    import datetime
+    import struct
+    ints, strs, lits = set(), set(), set()
+
+    def walk(j):
+        if isinstance(j, dict):
+            if 'name' in j and 'pos' in j and 'kw' in j:
+                for a in j['pos']:
+                    if isinstance(a, dict) and 'str' in a:
+                        lits.add(a['str'])
+                for _k, a in j['kw']:
+                    if isinstance(a, dict) and 'str' in a:
+                        lits.add(a['str'])
+            for x in j.values():
+                walk(x)
+        elif isinstance(j, list):
+            for x in j:
+                walk(x)
+    walk(jfiles)
+    for f in jfiles:
+        for d in f['decls']:
+            for _n, v in d.get('attrs', []) if d['k'] == 'route' else []:
+                if v[0] == 'i':
+                    ints.add(int(v[1]))
+                elif v[0] == 's':
+                    strs.add(v[1])
+    if not ints and not strs:
+        return None, None
+    conv, exact = [], []
+    for n in sorted(ints):
+        try:
+            x = float(n)
+            conv.append([n, struct.unpack('<Q', struct.pack('<d', x))[0]])
+            exact.append([n, x == n])
+        except OverflowError:
+            conv.append([n, None])
+            exact.append([n, False])
+    pat, tm = [], []
+    for p in sorted(lits):
+        try:
+            anchored = re.compile(r'\A(?:' + p + r')\Z')
+        except (re.error, OverflowError, RecursionError):
+            anchored = None
+        for t in sorted(strs):
+            if anchored is not None:
+                pat.append([p, t, bool(anchored.match(t))])
+            try:
+                datetime.datetime.strptime(t, p)
+                tm.append([p, t, True])
+            except (ValueError, re.error):
+                tm.append([p, t, False])
+    return {'fltOfInt': conv, 'pat': pat}, {'intExact': exact, 'strptimeOk': tm}
 
 
 def _ref(r, rx):
@@ -370,7 +429,7 @@ NO_VERDICT = ('outOfFuel', 'fuelAlias', 'fuelAncestors', 'fuelImports', 'interna
 SAME_MESSAGE = {'tagFieldClash': 'dupField'}
 
 # messages that an unmodelled site raises too (annotations applied to members resolve `ns.Annotation` the same way)
-AMBIGUOUS = {'nsNotImported', 'notNamespace', 'attrValue'}
+AMBIGUOUS = {'nsNotImported', 'notNamespace'}
 # the kinds `_resolve_type` raises: ambiguous when an annotation type has parameters (see `to_ast`)
 RESOLVE_KINDS = {'nsNotImported', 'notNamespace', 'undefinedSymbol', 'voidNullable', 'routeRef', 'notDataType', 'attrsOnUser',
                  'params.missingPositional', 'params.tooManyPositional', 'params.unknownKeyword',
@@ -623,7 +682,11 @@ def prepare(files):
         jfiles, rx, flags = to_ast(asts)
     except Unmodelled as e:
         return ('skip', str(e).split(':')[0])
-    return ('ok', asts, {'op': 'comp.compile', 'files': jfiles, 'rx': rx, 'denote': True}, flags)
+    req = {'op': 'comp.compile', 'files': jfiles, 'rx': rx, 'denote': True}
+    ext, cext = attr_tables(jfiles)
+    if ext is not None:
+        req['ext'], req['cext'] = ext, cext
+    return ('ok', asts, req, flags)
 
 
 def judge_case(ck, files, origin, asts, reply, real=None, flags=()):
@@ -981,6 +1044,52 @@ SEEDS = [
                      ('a.stone', _ns('route r(Void, Void, Void)\n    attrs\n        mode = fast\n'))], 'ok'),
     ('attrs-two-namespaces', [CFG, ('a.stone', _ns('route r(Void, Void, Void)\n    attrs\n        style = "rpc"\n')),
                               ('b.stone', _ns('route q(Void, Void, Void)\n', 'nb'))], 'attrMissing'),
+    ('attrValue-kind', [CFG, ('a.stone', _ns('route r(Void, Void, Void)\n    attrs\n        style = 1\n'))], 'attrValue'),
+    ('attrValue-null', [CFG, ('a.stone', _ns('route r(Void, Void, Void)\n    attrs\n        style = null\n'))], 'attrValue'),
+    ('attrValue-tag-for-string', [CFG, ('a.stone', _ns('route r(Void, Void, Void)\n    attrs\n        style = rpc\n'))], 'attrValue'),
+    ('attrValue-unknown-tag', [('cfg.stone', _ns('import nb\n\nstruct Route\n    mode nb.Mode\n', 'stone_cfg')),
+                               ('b.stone', _ns('union Mode\n    fast\n    slow\n', 'nb')),
+                               ('a.stone', _ns('route r(Void, Void, Void)\n    attrs\n        mode = medium\n'))], 'attrValue'),
+    ('attrValue-nonvoid-tag', [('cfg.stone', _ns('import nb\n\nstruct Route\n    mode nb.Mode\n', 'stone_cfg')),
+                               ('b.stone', _ns('union Mode\n    fast\n    slow String\n', 'nb')),
+                               ('a.stone', _ns('route r(Void, Void, Void)\n    attrs\n        mode = slow\n'))], 'attrValue'),
+    ('attrValue-string-for-union', [('cfg.stone', _ns('import nb\n\nstruct Route\n    mode nb.Mode\n', 'stone_cfg')),
+                                    ('b.stone', _ns('union Mode\n    fast\n    slow\n', 'nb')),
+                                    ('a.stone', _ns('route r(Void, Void, Void)\n    attrs\n        mode = "fast"\n'))], 'attrValue'),
+    ('attrs-union-other', [('cfg.stone', _ns('import nb\n\nstruct Route\n    mode nb.Mode\n', 'stone_cfg')),
+                           ('b.stone', _ns('union Mode\n    fast\n', 'nb')),
+                           ('a.stone', _ns('route r(Void, Void, Void)\n    attrs\n        mode = other\n'))], 'ok'),
+    ('attrs-union-inherited-tag', [('cfg.stone', _ns('import nb\n\nstruct Route\n    mode nb.Mode\n', 'stone_cfg')),
+                                   ('b.stone', _ns('union Base\n    slow\n\nunion Mode extends Base\n    fast\n', 'nb')),
+                                   ('a.stone', _ns('route r(Void, Void, Void)\n    attrs\n        mode = slow\n'))], 'ok'),
+] + [(lab, [('cfg.stone', _ns('struct Route\n    x %s\n' % ty, 'stone_cfg')),
+            ('a.stone', _ns('route r(Void, Void, Void)\n    attrs\n        x = %s\n' % val))], exp)
+     for lab, ty, val, exp in [
+    ('attrs-int', 'Int32', '5', 'ok'), ('attrValue-int-range', 'Int32', '2147483648', 'attrValue'),
+    ('attrValue-uint-negative', 'UInt64', '-1', 'attrValue'),
+    ('attrValue-int-min', 'Int32(min_value=3)', '2', 'attrValue'), ('attrs-int-max', 'Int64(max_value=3)', '3', 'ok'),
+    ('attrValue-int-bool', 'Int32', 'true', 'attrValue'), ('attrValue-int-float', 'Int32', '1.0', 'attrValue'),
+    ('attrs-bool', 'Boolean', 'false', 'ok'), ('attrValue-bool-int', 'Boolean', '1', 'attrValue'),
+    ('attrs-float', 'Float64', '1.5', 'ok'), ('attrs-float-int', 'Float64', '3', 'ok'),
+    ('attrValue-float-inexact-int', 'Float64', '9007199254740993', 'attrValue'),
+    ('attrValue-float32-range', 'Float32', '1e39', 'attrValue'), ('attrValue-float-bool', 'Float64', 'true', 'attrValue'),
+    ('attrValue-float-max', 'Float64(max_value=1.5)', '1.75', 'attrValue'), ('attrs-float-min', 'Float64(min_value=1.5)', '1.5', 'ok'),
+    ('attrValue-float-min-int', 'Float64(min_value=2)', '1', 'attrValue'),
+    ('attrs-string-len', 'String(min_length=2, max_length=3)', '"abc"', 'ok'),
+    ('attrValue-string-long', 'String(max_length=3)', '"abcd"', 'attrValue'),
+    ('attrValue-string-short', 'String(min_length=2)', '"a"', 'attrValue'),
+    ('attrs-pattern', 'String(pattern="[a-z]+")', '"abc"', 'ok'),
+    ('attrValue-pattern-prefix', 'String(pattern="[a-z]+")', '"abc1"', 'attrValue'),
+    ('attrs-timestamp', 'Timestamp("%Y-%m-%d")', '"2020-01-31"', 'ok'),
+    ('attrValue-timestamp', 'Timestamp("%Y-%m-%d")', '"2020-13-31"', 'attrValue'),
+    ('attrValue-timestamp-int', 'Timestamp("%Y-%m-%d")', '3', 'attrValue'),
+    ('attrs-bytes', 'Bytes', '"abc"', 'ok'), ('attrValue-bytes-int', 'Bytes', '3', 'attrValue'),
+    ('attrs-nullable-value', 'Int32?', '7', 'ok'), ('attrValue-nullable-kind', 'Int32?', '"7"', 'attrValue'),
+]] + [
+    ('attrs-alias-value', [('cfg.stone', _ns('alias A = B?\n\nalias B = Int32(max_value=4)\n\nstruct Route\n    x A\n', 'stone_cfg')),
+                           ('a.stone', _ns('route r(Void, Void, Void)\n    attrs\n        x = 4\n'))], 'ok'),
+    ('attrValue-alias-value', [('cfg.stone', _ns('alias A = B?\n\nalias B = Int32(max_value=4)\n\nstruct Route\n    x A\n', 'stone_cfg')),
+                               ('a.stone', _ns('route r(Void, Void, Void)\n    attrs\n        x = 5\n'))], 'attrValue'),
     ('two-files-one-ns', [('a1.stone', _ns('struct S\n    x T\n    l List(A, min_items=1, max_items=3)?\n')),
                           ('a2.stone', _ns('struct T\n    y Map(String, S?)\n\nalias A = T\n'))], 'ok'),
 ]
